@@ -44,6 +44,6 @@ def run_chain_check(pid, tier, replay, mc_quick, mc_thorough, sim_cfg, n_quick, 
         "blocks are processed with Options::SKIP_POW (PoW and difficulty rules are decided by C04/C05)",
         "AutomatedTesting chain type (coinbase maturity 3); harness genesis has MMR sizes consistent with its body",
         "bulletproofs, aggsig and blake2b are used as primitives",
-        "orphan-pool capacity/age eviction and compaction are outside this model",
+        "orphan-pool capacity/age eviction is outside this model; Chain.tla's Compact action is exercised by C08 (compact simulation profile: 85-block trunk)",
     ]
     return rep.finish()
